@@ -86,22 +86,15 @@ def _baseline(prop: str):
 
 
 def _violations(prop: str, overlay) -> Tuple[set, Optional[str]]:
+    """the verdict of the check on this tree: keys of its unlisted violations (open known findings matched as report.finish does) and its
+    analysis errors (incl. rules below their floor)"""
     from sa import check
     from sa.model import AnalysisError
+    from sa.report import verdict
     try:
         run = check.run_property(prop, "quick", overlay=overlay)
-        from sa.report import Run
-        # floors
-        per = {}
-        for o in run.obligations:
-            per[o.rule] = per.get(o.rule, 0) + 1
-        floors_hit = []
-        failing = {o.rule for o in run.obligations if not o.ok}
-        for rid, fl in run.floors.items():
-            if per.get(rid, 0) < fl and rid not in failing:
-                floors_hit.append(f"rule {rid} below its floor")
-        errs = run.analysis_errors + floors_hit
-        return {(o.rule, o.function, o.construct) for o in run.obligations if not o.ok}, ("ANALYSIS-ERROR " + "; ".join(errs)[:300]) if errs else None
+        v, errs = verdict(run)
+        return set(v), ("ANALYSIS-ERROR " + "; ".join(errs)[:300]) if errs else None
     except AnalysisError as e:
         return set(), f"ANALYSIS-ERROR {e}"
     except Exception as e:  # noqa
